@@ -320,13 +320,36 @@ def r_baselevel(P, chk):
             if l is None or l["k"] != "MemberExpr" or l["n"] != "base_header_level":
                 continue
             n += 1
-            cv = const_value(x["c"][1])
-            if cv is not None:
-                lo = cv
-            else:
-                ub = ub or UB1(f)
-                iv = ub.interval_at(x["c"][1], at=x)
-                lo = iv[0] if iv is not None else None
+            ub = ub or UB1(f)
+
+            def lower(e, depth=0):
+                """lower bound of e at the store; `c ? a : b` arm-wise, an arm that is the variable tested by c refined by c"""
+                cv = const_value(e)
+                if cv is not None:
+                    return cv
+                se = strip(e)
+                if se is not None and se["k"] == "ConditionalOperator" and depth < 3:
+                    c, a, b = se["c"]
+                    sc = strip(c)
+                    los = []
+                    for arm, truth in ((a, True), (b, False)):
+                        la = lower(arm, depth + 1)
+                        if sc is not None and sc["k"] == "BinaryOperator" and sc["op"] in ("<", "<=", ">", ">="):
+                            l_, r_ = sc["c"]
+                            kv, other, op = key(l_), const_value(r_), sc["op"]
+                            if other is None:
+                                kv, other, op = key(r_), const_value(l_), {"<": ">", "<=": ">=", ">": "<", ">=": "<="}[sc["op"]]
+                            if other is not None and key(arm) == kv:
+                                if not truth:
+                                    op = {"<": ">=", "<=": ">", ">": "<=", ">=": "<"}[op]
+                                ref = other if op == ">=" else (other + 1 if op == ">" else None)
+                                if ref is not None:
+                                    la = ref if la is None else max(la, ref)
+                        los.append(la)
+                    return None if None in los else min(los)
+                iv = ub.interval_at(e, at=x)
+                return iv[0] if iv is not None and iv[0] != float("-inf") else None
+            lo = lower(x["c"][1])
             ok = lo is not None and lo >= 1
             chk.obligation(rid, "%s %s: `%s` stores a value with lower bound %s" % (f.where(x), f.name, f.src(x)[:60], lo), ok)
             if not ok:
